@@ -131,6 +131,7 @@ impl TraitHandler for DerefEnumHandler {
                 type Target = #target_token_stream;
 
                 #[inline]
+                #[allow(non_snake_case)]
                 fn deref(&self) -> &<Self as ::core::ops::Deref>::Target {
                     match self {
                         #arms_token_stream
